@@ -191,6 +191,7 @@ pub fn check_readback(
             return;
         }
     };
+    let clean_mark = out.len();
     let ids = p.track_ids();
     let want: Vec<u32> = (1..=model.tracks.len() as u32).collect();
     if ids != want {
@@ -280,6 +281,30 @@ pub fn check_readback(
                     out.push(Violation::new(prop, "readback_panic", format!("api=read_sample_past_end {}", pi.discriminator()), pi.location));
                 }
                 _ => {}
+            }
+        }
+    }
+    // Second pass on the same reader with the tracks taken in turn: what a sample reads back as
+    // must not depend on which track was read before it. Only when the first pass was clean.
+    if out.len() == clean_mark && model.tracks.len() >= 2 {
+        let rounds = model.tracks.iter().map(|t| t.samples.len()).max().unwrap_or(0).min(6) as u32;
+        'turns: for k in 1..=rounds {
+            for (ti, mt) in model.tracks.iter().enumerate() {
+                let t = ti as u32 + 1;
+                if k as usize > mt.samples.len() {
+                    continue;
+                }
+                let ms = &mt.samples[k as usize - 1];
+                if ms.payload.len() > (1 << 20) {
+                    continue;
+                }
+                if let SampleOutcome::Some(s) = p.read_sample(t, k) {
+                    if s.bytes.len() as u64 != ms.payload.len() || !ms.payload.matches(&s.bytes) || s.start_time != mt.starts[k as usize - 1] {
+                        out.push(Violation::new(prop, "sample_bytes", "what=content order=tracks_in_turn".to_string(),
+                            format!("track {t} sample {k}: reads back correctly track by track, differently when the tracks are read in turn")));
+                        break 'turns;
+                    }
+                }
             }
         }
     }
